@@ -101,7 +101,7 @@ Full(c) == [fmt |-> FmtOf, base |-> c.base, order |-> c.order,
             media |-> [k \in DOMAIN c.media |-> [part |-> c.media[k].part, kind |-> "png", w |-> 1, h |-> 1,
                                                   fill |-> FALSE, noext |-> FALSE]],
             anchors |-> [i \in DOMAIN c.anchors |-> [unit |-> c.anchors[i].unit, cands |-> c.anchors[i].cands,
-                                                     ref |-> c.anchors[i].ref, fw |-> 0, fh |-> 0]]]
+                                                     ref |-> c.anchors[i].ref, nest |-> "", fw |-> 0, fh |-> 0]]]
 
 Init ==
     /\ IF Mode = "cases"
